@@ -109,6 +109,11 @@ func runC16(c *Ctx) {
 			}
 			n++
 			reason, listed := allowedSchemaNameReaders[fi.Name]
+			if !listed {
+				if from := helperOfAllowedReader(c, fi); from != "" {
+					reason, listed = "helper called only from "+from+": "+allowedSchemaNameReaders[from], true
+				}
+			}
 			if listed && !qualifierSinks[fi.Name] {
 				c.Check("R16a", fi.Name+"|reads Schema.Name", se.Pos(), true, "%s", reason)
 			}
@@ -116,7 +121,11 @@ func runC16(c *Ctx) {
 		})
 		// every other reader (the known sinks, or a helper extracted from one) must be qualifier-aware itself:
 		// the read is reachable only after establishing that no qualifier was requested
-		if _, listed := allowedSchemaNameReaders[fi.Name]; n > 0 && (!listed || qualifierSinks[fi.Name]) {
+		_, listedFn := allowedSchemaNameReaders[fi.Name]
+		if !listedFn && helperOfAllowedReader(c, fi) != "" {
+			listedFn = true
+		}
+		if listed := listedFn; n > 0 && (!listed || qualifierSinks[fi.Name]) {
 			seenSinks[fi.Name] = true
 			checkQualifierFirst(c, fi)
 		}
@@ -177,40 +186,50 @@ func runC16(c *Ctx) {
 	}
 
 	// ---- R16c
-	if fi := c.Func("R16c", pSqlx, "", "CheckChangesScope"); fi != nil {
-		info := fi.Info()
-		ast.Inspect(fi.Decl.Body, func(m ast.Node) bool {
-			ifs, ok := m.(*ast.IfStmt)
-			if !ok {
-				return true
-			}
-			// guard: facts implied by the condition being true of the form X.Name != ""
-			var guarded []string
-			for _, fct := range impliedFacts(ifs.Cond, true) {
-				be, ok := fct.expr.(*ast.BinaryExpr)
-				if !ok || be.Op != token.NEQ || !fct.val {
-					continue
-				}
-				if s, ok := stringConst(info, be.Y); ok && s == "" && isField(info, be.X, pSchema, "Schema", "Name") {
-					guarded = append(guarded, types.ExprString(be.X))
+	if root := c.Func("R16c", pSqlx, "", "CheckChangesScope"); root != nil {
+		scopes := []*FuncInfo{root}
+		for _, call := range callsIn(root.Decl.Body, true) {
+			if fn := calleeOf(root.Info(), call); fn != nil && fn.Pkg() != nil && fn.Pkg().Path() == pSqlx && fn != root.Obj {
+				if g := c.FuncInfoOf(fn); g != nil && g.Decl.Body != nil {
+					scopes = append(scopes, g)
 				}
 			}
-			if len(guarded) != 1 {
-				return true
-			}
-			// the body stores names[<expr>]: the expr must be the guarded one
-			for _, st := range ifs.Body.List {
-				as, ok := st.(*ast.AssignStmt)
+		}
+		for _, fi := range scopes {
+			info := fi.Info()
+			ast.Inspect(fi.Decl.Body, func(m ast.Node) bool {
+				ifs, ok := m.(*ast.IfStmt)
 				if !ok {
-					continue
+					return true
 				}
-				if ix, ok := as.Lhs[0].(*ast.IndexExpr); ok && isField(info, ix.Index, pSchema, "Schema", "Name") {
-					got := types.ExprString(ix.Index)
-					c.Check("R16c", "CheckChangesScope|guard "+guarded[0]+" records "+got, ix.Pos(), got == guarded[0], "under the guard on %s the scope check records %s: an object of another schema is attributed to the wrong schema and multi-schema change sets are not rejected", guarded[0], got)
+				// guard: facts implied by the condition being true of the form X.Name != ""
+				var guarded []string
+				for _, fct := range impliedFacts(ifs.Cond, true) {
+					be, ok := fct.expr.(*ast.BinaryExpr)
+					if !ok || be.Op != token.NEQ || !fct.val {
+						continue
+					}
+					if s, ok := stringConst(info, be.Y); ok && s == "" && isField(info, be.X, pSchema, "Schema", "Name") {
+						guarded = append(guarded, types.ExprString(be.X))
+					}
 				}
-			}
-			return true
-		})
+				if len(guarded) != 1 {
+					return true
+				}
+				// the body stores names[<expr>]: the expr must be the guarded one
+				for _, st := range ifs.Body.List {
+					as, ok := st.(*ast.AssignStmt)
+					if !ok {
+						continue
+					}
+					if ix, ok := as.Lhs[0].(*ast.IndexExpr); ok && isField(info, ix.Index, pSchema, "Schema", "Name") {
+						got := types.ExprString(ix.Index)
+						c.Check("R16c", "CheckChangesScope|guard "+guarded[0]+" records "+got, ix.Pos(), got == guarded[0], "under the guard on %s the scope check records %s: an object of another schema is attributed to the wrong schema and multi-schema change sets are not rejected", guarded[0], got)
+					}
+				}
+				return true
+			})
+		}
 	}
 
 	// ---- R16d
@@ -268,7 +287,7 @@ func runC16(c *Ctx) {
 	})
 
 	// ---- R16f
-	c.Rule("R16f", ruleTextScratchStates, 3)
+	c.Rule("R16f", ruleTextScratchStates, 2)
 	checkScratchStates(c, "R16f")
 
 	// ---- R16e
@@ -442,4 +461,37 @@ func underSchemaScope(info *types.Info, body *ast.BlockStmt, pm map[ast.Node]ast
 		}
 	}
 	return false
+}
+
+// helperOfAllowedReader: fi is not a listed reader of Schema.Name, but every static call of it in
+// the module comes from one listed reader that is not a qualifier-aware sink (a helper extracted
+// from it). Returns that reader's name.
+func helperOfAllowedReader(c *Ctx, fi *FuncInfo) string {
+	from := ""
+	ok := true
+	calls := 0
+	c.AllFuncs(false, func(g *FuncInfo) {
+		if !ok || g == fi {
+			return
+		}
+		for _, call := range callsIn(g.Decl.Body, true) {
+			if calleeOf(g.Info(), call) != fi.Obj {
+				continue
+			}
+			calls++
+			if _, listed := allowedSchemaNameReaders[g.Name]; !listed || qualifierSinks[g.Name] {
+				ok = false
+				return
+			}
+			if from != "" && from != g.Name {
+				ok = false
+				return
+			}
+			from = g.Name
+		}
+	})
+	if !ok || calls == 0 {
+		return ""
+	}
+	return from
 }
